@@ -404,7 +404,7 @@ mut('c13-bn-cma-before-increment', ['C13'], 'cumulative average factor read befo
                 else:  # use exponential moving average
                     exponential_average_factor = self.momentum
                 self.num_batches_tracked += 1
-""")], rules=['C13.BN-ONCE'])
+""")], rules=['C13.BN-UPDATE'])
 mut('c13-bn-writeback-swapped', ['C13'], 'wrapper writes the new running variance into running_mean', [(NF, "    if new_running_mean is not None: running_mean.data = new_running_mean\n    if new_running_var is not None: running_var.data = new_running_var", "    if new_running_mean is not None: running_mean.data = new_running_var\n    if new_running_var is not None: running_var.data = new_running_mean")], rules=['C13.BN-UPDATE'])
 mut('c13-twin-dropout-gt', ['C13'], 'mask written as np.where(draw > p, 1, 0)', [(LY, "np.where(random_data <= self.p, 0, 1)", "np.where(random_data > self.p, 1, 0)")], expect='silent')
 mut('c13-twin-bn-update-reassoc', ['C13'], 'running mean update re-associated', [(K, "running_mean = mean * momentum + running_mean * (1 - momentum)", "running_mean = running_mean + momentum * (mean - running_mean)")], expect='silent')
